@@ -328,20 +328,47 @@ pub fn run_with(gid: &str, input: &str, with_indented: bool, parse: impl Fn(Mode
 }
 
 pub fn unhex(s: &str) -> String {
-    // "@4g:<hex byte>:<hex tail>": that byte 2^32 + 5 times, then the tail (offsets beyond 32 bits)
+    try_unhex(s).expect("input too large to allocate")
+}
+
+/// `None`: the input is described (gigabytes), and this machine cannot give the address space for it
+pub fn try_unhex(s: &str) -> Option<String> {
+    // "@4g:<hex byte>:<hex tail>": that (ASCII) byte 2^32 + 5 times, then the tail (offsets beyond 32 bits)
     if let Some(rest) = s.strip_prefix("@4g:") {
         let mut it = rest.split(':');
         let b = u8::from_str_radix(it.next().expect("byte"), 16).expect("hex");
         let tail = unhex(it.next().unwrap_or(""));
-        let n = (1usize << 32) + 5;
-        let mut v = vec![b; n];
-        v.extend_from_slice(tail.as_bytes());
-        return String::from_utf8(v).expect("utf8 input");
+        return filler_input(b, (1usize << 32) + 5, tail.as_bytes());
     }
     let bytes: Vec<u8> = (0..s.len() / 2)
         .map(|i| u8::from_str_radix(&s[2 * i..2 * i + 2], 16).expect("hex"))
         .collect();
-    String::from_utf8(bytes).expect("utf8 input")
+    Some(String::from_utf8(bytes).expect("utf8 input"))
+}
+
+/// `n` times the ASCII byte `b`, then `tail`.  With `b` = NUL the filler is never written and never read here: the
+/// allocator hands out untouched zero pages, so the gigabytes cost address space only - no memory is committed and
+/// nothing depends on how fast this machine can fault in 4 GiB (a fresh VM: tens of seconds).
+fn filler_input(b: u8, n: usize, tail: &[u8]) -> Option<String> {
+    assert!(b < 0x80, "the filler byte is ASCII");
+    assert!(std::str::from_utf8(tail).is_ok());
+    let total = n + tail.len();
+    let layout = std::alloc::Layout::array::<u8>(total).ok()?;
+    // SAFETY: `p` is a fresh allocation of `total` bytes with the layout of a Vec<u8> of that capacity; all of
+    // it is initialised (zeroed or filled, then the tail) before the Vec takes ownership.
+    let v = unsafe {
+        let p = if b == 0 { std::alloc::alloc_zeroed(layout) } else { std::alloc::alloc(layout) };
+        if p.is_null() {
+            return None;
+        }
+        if b != 0 {
+            std::ptr::write_bytes(p, b, n);
+        }
+        std::ptr::copy_nonoverlapping(tail.as_ptr(), p.add(n), tail.len());
+        Vec::from_raw_parts(p, total, total)
+    };
+    // SAFETY: ASCII filler followed by a valid UTF-8 tail is valid UTF-8 (no validating pass over the gigabytes)
+    Some(unsafe { String::from_utf8_unchecked(v) })
 }
 
 pub type CaseFn = fn(&str, &str, bool) -> String;
@@ -385,9 +412,20 @@ pub fn runner_main(table: &[(&'static str, CaseFn)]) {
         let line = line.expect("line");
         let mut it = line.split('\t');
         let gid = it.next().unwrap();
+        // announce the case first: if the process dies, the driver knows which case it was
+        let _ = writeln!(out, "{{\"start\":{}}}", i);
+        let _ = out.flush();
         let owned;
         let input: &str = {
-            let fresh = unhex(it.next().unwrap_or(""));
+            let fresh = match try_unhex(it.next().unwrap_or("")) {
+                Some(s) => s,
+                None => {
+                    // not an outcome of the code under test: the driver reports the case as not run
+                    let _ = writeln!(out, "{{\"g\":{},\"inp\":[-4],\"skipped\":\"cannot allocate the input\"}}", jstr(gid));
+                    let _ = out.flush();
+                    continue;
+                }
+            };
             if fresh.len() <= (1 << 20) {
                 buf.clear();
                 buf.push_str(&fresh);
@@ -397,9 +435,6 @@ pub fn runner_main(table: &[(&'static str, CaseFn)]) {
                 &owned
             }
         };
-        // announce the case first: if the process dies, the driver knows which case it was
-        let _ = writeln!(out, "{{\"start\":{}}}", i);
-        let _ = out.flush();
         let js = match map.get(gid) {
             Some(f) => f(gid, input, with_indented),
             None => format!("{{\"g\":{},\"missing\":true}}", jstr(gid)),
